@@ -18,8 +18,8 @@ type CV struct {
 	Nil    bool
 }
 
-func cvInt(i int64) CV   { return CV{K: "int", I: i} }
-func cvBool(b bool) CV   { return CV{K: "bool", B: b} }
+func cvInt(i int64) CV { return CV{K: "int", I: i} }
+func cvBool(b bool) CV { return CV{K: "bool", B: b} }
 func cvBytes(b []byte) CV {
 	s := make([]int64, len(b))
 	for i, x := range b {
@@ -67,10 +67,10 @@ func (v CV) String() string {
 type interpErr struct{ msg string }
 
 type Interp struct {
-	cs    *Contracts
+	cs     *Contracts
 	consts map[string]int64
-	memo  map[string]CV
-	steps int
+	memo   map[string]CV
+	steps  int
 }
 
 func (in *Interp) errf(format string, args ...interface{}) {
